@@ -400,6 +400,59 @@ def _ref_by_residue(rows):
     return by, out
 
 
+_OWN = {"beta": ["P", "O5'", "C5'", "C4'"], "gamma": ["O5'", "C5'", "C4'", "C3'"], "delta": ["C5'", "C4'", "C3'", "O3'"]}
+
+
+def _backbone_row(rec, row, k, by, what):
+    """Every backbone torsion the table reports for a residue is the torsion over four atoms bonded in sequence:
+    its own atoms for beta/gamma/delta; for alpha the O3' of a residue whose O3' lies within 3 A of this residue's P
+    (the library links at 2.4 A), for epsilon/zeta the P (and O5') of a residue whose P lies within 3 A of this
+    residue's O3'.  Compared by magnitude (the sign of the table-level function is the recorded finding)."""
+    a = by[k]["atoms"]
+
+    def val(name):
+        v = row.get(name)
+        return None if v is None or (isinstance(v, float) and math.isnan(v)) else float(v)
+
+    def near(own, other):
+        if own not in a:
+            return []
+        p = np.array(a[own])
+        return [kk for kk, vv in by.items() if kk != k and other in vv["atoms"] and float(np.linalg.norm(np.array(vv["atoms"][other]) - p)) <= 3.0]
+
+    for name, atoms in _OWN.items():
+        v = val(name)
+        if v is None or any(n not in a for n in atoms):
+            if v is not None:
+                rec.violation("v2.table-backbone-torsion-is-over-bonded-atoms", {"residue": k, "angle": name, "value": v, "missing": [n for n in atoms if n not in a], "input": what}, mechanism="torsion-without-its-atoms")
+            continue
+        ref, margin = geom.dihedral(*[a[n] for n in atoms])
+        if margin < 1e-3:
+            continue
+        rec.check("v2.table-backbone-torsion-is-over-bonded-atoms", abs(abs(v) - abs(ref)) <= 1e-6, lambda: {"residue": k, "angle": name, "value": v, "dihedral-of-written-coordinates": ref, "input": what})
+    for name in ("alpha", "epsilon", "zeta"):
+        v = val(name)
+        if v is None:
+            continue
+        cands = []
+        if name == "alpha":
+            for j in near("P", "O3'"):
+                if all(n in a for n in ("P", "O5'", "C5'")):
+                    cands.append(geom.dihedral(by[j]["atoms"]["O3'"], a["P"], a["O5'"], a["C5'"]))
+        elif name == "epsilon":
+            for j in near("O3'", "P"):
+                if all(n in a for n in ("C4'", "C3'", "O3'")):
+                    cands.append(geom.dihedral(a["C4'"], a["C3'"], a["O3'"], by[j]["atoms"]["P"]))
+        else:
+            for j in near("O3'", "P"):
+                if all(n in a for n in ("C3'", "O3'")) and "O5'" in by[j]["atoms"]:
+                    cands.append(geom.dihedral(a["C3'"], a["O3'"], by[j]["atoms"]["P"], by[j]["atoms"]["O5'"]))
+        if any(m < 1e-3 for _, m in cands):
+            continue
+        rec.check("v2.table-backbone-torsion-is-over-bonded-atoms", any(abs(abs(v) - abs(r)) <= 1e-6 for r, _ in cands),
+                  lambda: {"residue": k, "angle": name, "value": v, "torsions-over-bonded-neighbours": [r for r, _ in cands], "input": what})
+
+
 def _table_checks(case, rec, s3):
     import random as _r
 
@@ -456,6 +509,12 @@ def _table_checks(case, rec, s3):
     jr = _r.Random("C18:model2:" + case["file"])
     second = [dict(r, model=r["model"] + 1, x=round(r["x"] + jr.gauss(0, 0.15), 3), y=round(r["y"] + jr.gauss(0, 0.15), 3), z=round(r["z"] + jr.gauss(0, 0.15), 3)) for r in rows]
     variants.append(("two models, the second a perturbed copy", rows + second))
+    # components whose NAMES begin with the letter of another base (T6A is an adenosine, A5M a cytidine, GMU a
+    # uridine): whatever the table reports as chi for them is still the glycosidic torsion of the base the atoms show
+    other_names = {"A": "T6A", "G": "CG1", "C": "A5M", "U": "GMU"}
+    if len(std) >= 6:
+        chosen = set(jr.sample(std, min(4, len(std)))) | {std[0], std[-1]}
+        variants.append(("components named T6A / CG1 / A5M / GMU", [dict(r, resname=other_names.get(r["resname"], r["resname"]), rec="HETATM") if (r["chain"], r["resseq"], r["icode"]) in chosen else r for r in rows]))
     for what, rws in variants:
         by, ref = _ref_by_residue(rws)
         _cur["ctx"] = "v2 torsion table, " + what
@@ -475,6 +534,12 @@ def _table_checks(case, rec, s3):
                 rec.check("v2.table-chi-magnitude", okv, lambda: {"residue": k, "table-chi": c, "dihedral-of-written-coordinates": ref[k][0], "input": case["file"] + ", " + what}, mechanism=mech)
             elif k in by and k not in ref:
                 rec.check("v2.table-no-chi-without-glycosidic-atoms", not has, lambda: {"residue": k, "table-chi": c, "atoms": sorted(by[k]["atoms"])[:12], "input": case["file"] + ", " + what})
+            elif k in ref:
+                # a component the library may or may not name a base for: no chi is fine, a chi must be the right one
+                rec.check("v2.table-chi-when-reported-is-the-glycosidic-torsion-of-the-atoms", (not has) or abs(abs(float(c)) - abs(ref[k][0])) <= 1e-6,
+                          lambda: {"residue": k, "name": ref[k][1], "purine-by-atoms": ref[k][2], "table-chi": c, "dihedral-of-written-coordinates": ref[k][0], "input": case["file"] + ", " + what})
+            if k in by:
+                _backbone_row(rec, row, k, by, case["file"] + ", " + what)
 
 
 def classify(v):
